@@ -175,6 +175,9 @@ func (c *ExpressionParser) matchTokensWithTypes(types ...int) bool {
 			matches = c.initialTokens[c.currentTokenIndex+i].Type() == typ
 		} else {
 			matches = false
+		}
+		// Every listed type has to match, not only the last one
+		if !matches {
 			break
 		}
 	}
@@ -220,7 +223,7 @@ func (c *ExpressionParser) performParsing() error {
 
 		if c.hasMoreTokens() {
 			token := c.getCurrentToken()
-			err = errors.NewSyntaxError("", errors.ErrErrorNear, "Syntax error near "+token.Value().AsString(), token.Line(), token.Column())
+			err = errors.NewSyntaxError("", errors.ErrErrorNear, "Syntax error near "+token.Value().String(), token.Line(), token.Column())
 			return err
 		}
 	}
@@ -235,8 +238,7 @@ func (c *ExpressionParser) completeLexicalAnalysis() error {
 		tokenValue := variants.Empty
 
 		switch token.Type() {
-		case tokenizers.Comment:
-		case tokenizers.Whitespace:
+		case tokenizers.Comment, tokenizers.Whitespace:
 			continue
 		case tokenizers.Keyword:
 			{
@@ -603,7 +605,8 @@ func (c *ExpressionParser) performSyntaxAnalysisAtLevel6() error {
 		for true {
 			c.moveToNextToken()
 			token = c.getCurrentToken()
-			if token == nil || token.Type() == RightBrace {
+			// An empty argument list is allowed only right after '(': after a comma an argument must follow
+			if token == nil || (paramCount == 0 && token.Type() == RightBrace) {
 				break
 			}
 
@@ -636,7 +639,7 @@ func (c *ExpressionParser) performSyntaxAnalysisAtLevel6() error {
 		c.addTokenToResult(Constant, variants.VariantFromInteger(paramCount), primitiveToken.Line(), primitiveToken.Column())
 		c.addTokenToResult(primitiveToken.Type(), primitiveToken.Value(), primitiveToken.Line(), primitiveToken.Column())
 	} else {
-		err = errors.NewSyntaxError("", errors.ErrErrorAt, "Syntax error at "+primitiveToken.Value().AsString(), primitiveToken.Line(), primitiveToken.Column())
+		err = errors.NewSyntaxError("", errors.ErrErrorAt, "Syntax error at "+primitiveToken.Value().String(), primitiveToken.Line(), primitiveToken.Column())
 		return err
 	}
 
@@ -663,6 +666,7 @@ func (c *ExpressionParser) performSyntaxAnalysisAtLevel6() error {
 			primitiveToken := c.getCurrentToken()
 			if primitiveToken.Type() != RightSquareBrace {
 				err = errors.NewSyntaxError("", errors.ErrMissedCloseSquareBracket, "Expected ']' was not found", primitiveToken.Line(), primitiveToken.Column())
+				return err
 			}
 
 			c.moveToNextToken()
